@@ -53,8 +53,11 @@ Theorem source_flow_inventory_closed : source_inventory_reviewed = true.
 Proof. exact source_inventory_ok. Qed.
 Print Assumptions source_flow_inventory_closed.
 
-(* ... and the same walk finds every site in its guarded form in the current source *)
-Theorem current_source_all_guarded : all_guarded source_variant.
+(* ... and the same walk finds every site of the inventoried functions in its guarded form in the current source.
+   The 15th site (float() of a huge integer in the vendored canonicaliser, reached from _generate_id) is not in an
+   inventoried function; its guard is looked up directly and appears as a hypothesis below, so that these
+   statements hold before and after its fix. *)
+Theorem current_source_all_guarded : forall s, s <> S_genid_number_range -> source_variant s = true.
 Proof. exact source_all_guarded. Qed.
 Print Assumptions current_source_all_guarded.
 
@@ -129,11 +132,11 @@ Print Assumptions family_only_parse_file.
 (* the variant read off the current source, on the live class tables *)
 Theorem current_source_family_only :
   forall (cl : blackbox) (strictext refuse : bool) (dec : decoder) (x : jvalue) (ac io : bool) (version : option ustring),
-  well_behaved cl ->
+  well_behaved cl -> source_variant S_genid_number_range = true ->
   forall e s, In (Exc e s) (parse source_variant live (clean_via cl) strictext refuse dec x ac io version) -> family e = true.
 Proof.
-  intros cl strictext refuse dec x ac io version Hcl e s Hin.
-  eapply ok_all_guarded; [exact source_all_guarded| |exact Hin].
+  intros cl strictext refuse dec x ac io version Hcl Hg e s Hin.
+  eapply ok_all_guarded; [exact (source_all_guarded_given Hg)| |exact Hin].
   apply ok_parse; [apply ok_clean_via; exact Hcl|exact live_known].
 Qed.
 Print Assumptions current_source_family_only.
